@@ -61,6 +61,7 @@ def extreme_values():
         {"": 1}, {"__dict__": 1}, {"__class__": 1}, {"__weakref__": 1}, {"__slots__": 1}, {"__init__": 1}, {"__module__": 1},
         {"\ud800": 1}, {"a" * 1000: 1}, {"_dict": 1, "mro": 2}, {"properties": 1, "default": 2}, {"self": 1, "value": 2, "cls": 3},
         {"a": 10 ** 400}, {"a": "9" * 400}, {"a": deep_list(50)}, {str(i): i for i in range(300)},
+        10 ** 4299, 10 ** 4300, -(10 ** 4400), 10 ** 5000 + 1, [10 ** 4400], [1, 10 ** 4400, 10 ** 4400], {"a": 10 ** 5000}, {"a": [10 ** 5000]}, {"1" * 5000: 1}, "9" * 5000,
         {"a": 1, "__dict__": {"x": 1}}, {"required": 1, "additionalProperties": 2, "validators": 3, "type_validator": 4},
     ]
     return vals
@@ -103,6 +104,9 @@ def extreme_atoms():
     out.append({"dependencies": {"__dict__": ["a"], "a": {"required": ["__dict__"]}}})
     out.append({"required": ["__dict__", "_dict", ""]})
     out.append({"default": 10 ** 400})
+    # integers beyond the interpreter's int -> decimal string conversion limit (4300 digits)
+    big = 10 ** 5000
+    out += [{"maximum": big}, {"minimum": -big}, {"exclusiveMaximum": big}, {"multipleOf": big}, {"const": big}, {"enum": [big, -big]}, {"default": big}, {"items": {"maximum": big}}, {"maxLength": big}, {"minItems": big}, {"required": ["a"], "properties": {"a": {"const": big}}}]
     return out
 
 
@@ -219,6 +223,26 @@ def size(v):
     return 1
 
 
+def _huge_int(v, depth=0):
+    """Contains an integer beyond the interpreter's int -> decimal string conversion limit?"""
+    if isinstance(v, bool) or depth > 200:
+        return False
+    if isinstance(v, int):
+        return v.bit_length() > 14000
+    if isinstance(v, (list, tuple)):
+        return any(_huge_int(x, depth + 1) for x in v)
+    if isinstance(v, dict):
+        return any(_huge_int(x, depth + 1) for x in v.values())
+    return False
+
+
+def escape_key(res, schema, value):
+    if isinstance(res, ValueError) and "integer string conversion" in str(res) and (_huge_int(value) or _huge_int(schema)):
+        # narrow root cause (recorded finding): the failure message renders a >4300-digit integer with repr()
+        return "escaped:ValueError:int-max-str-digits"
+    return "escaped:%s@%s" % (type(res).__name__, impl.where(res))
+
+
 def judge_call(st, schema, el, value, tag):
     kind, res = impl.do_call(el, value, budget=BUDGET + 5_000 * size(value))
     st.add("evaluations")
@@ -226,7 +250,7 @@ def judge_call(st, schema, el, value, tag):
     st.outcome("call/" + kind)
     if kind not in ALLOWED_CALL:
         et = type(res).__name__
-        st.violation(("escaped:%s@%s" % (et, impl.where(res))) if kind != impl.TIMEOUT else "budget-exceeded", "%s schema %s value %s -> %s %r" % (tag, json.dumps(runner.jsonable(schema))[:200], json.dumps(runner.jsonable(value))[:100], kind, res), {"schema": schema, "value": runner.jsonable(value), "value_repr": repr(value)[:200], "observed": kind, "exception": repr(res)[:300]})
+        st.violation(escape_key(res, schema, value) if kind != impl.TIMEOUT else "budget-exceeded", "%s schema %s value %s -> %s %r" % (tag, json.dumps(runner.jsonable(schema))[:200], json.dumps(runner.jsonable(value))[:100], kind, res), {"schema": schema, "value": runner.jsonable(value), "value_repr": runner.safe_repr(value), "observed": kind, "exception": repr(res)[:300]})
     return kind
 
 
@@ -324,6 +348,29 @@ def work(item):
             st.outcome("parse-deep/" + kind)
             if kind not in (impl.ELEMENT, impl.PARSE_ERROR):
                 st.violation("parse-escaped:%s:deep-finite-schema" % kind.split(":", 1)[1], "a finite schema nested %d levels through %r makes parsing raise %s" % (n, kw, kind), {"depth": n, "keyword": kw, "observed": kind})
+        # the document-level entry point over the same corner family (+ the two boolean schemas)
+        import copy as _copy
+
+        from statham.schema.parser import parse as _parse
+
+        for schema in CORNER_SCHEMAS + [True, False, {"definitions": {"a": True, "b": False}}, {"definitions": {}}, {"definitions": {"": {"type": "object"}}}, {"definitions": {"a": {"type": "object", "title": "A"}, "b": {"type": "object", "title": "A"}}}]:
+            if not metaschema_valid(schema):
+                continue
+            st.add("states")
+            st.add("transitions")
+            st.add("parses")
+            try:
+                got = impl.with_budget(lambda: _parse(_copy.deepcopy(schema)), BUDGET)
+                kind = "elements" if isinstance(got, list) and got else "odd-result"
+            except SchemaParseError:
+                kind = impl.PARSE_ERROR
+            except impl.Budget:
+                kind = "TIMEOUT"
+            except BaseException as exc:  # noqa
+                kind = "OTHER:%s@%s" % (type(exc).__name__, impl.where(exc))
+            st.outcome("parse-document/" + kind.split(":")[0])
+            if kind not in ("elements", impl.PARSE_ERROR):
+                st.violation("parse-document-escaped:%s" % kind.split(":", 1)[-1], "parse(%s) -> %s" % (json.dumps(runner.jsonable(schema))[:200], kind), {"schema": schema, "entry": "parse", "observed": kind})
         for schema in CORNER_SCHEMAS:
             if not metaschema_valid(schema):
                 st.add("dropped_not_metaschema_valid")
